@@ -1,10 +1,22 @@
 (* RunEffects — cli/from_specified_markers.py:run_mapping as an effect trace.
    The control flow (what is inside `try`, what is in `except`, what is in
    `finally`, where the output dict gets its keys) is transcribed; the work done
-   by each step is opaque.  The only nondeterminism is WHERE the run fails
-   (`fail : option point`); a worker failure of the mapping stage is
-   `Some PAssign` (the pool of Model/Pool.v raised inside
-   run_type_assignment_on_h5ad).  Definitions only.
+   by each step is opaque.  The only nondeterminism is WHERE the run fails: a PAIR
+   (`bf : option point`, the step of the body of `try` that raises, if any;
+    `ff : option fpoint`, the step of the `finally` block that raises, if any) - audit 4, A2:
+   the two are independent (a worker fails AND the log path is a directory) or correlated (a
+   missing query file fails the copy step of the body AND read_uns_from_h5ad in `finally`), and
+   with a single fail point "the exception of `finally` replaces the one of the body" could not
+   be expressed.  A worker failure of the mapping stage is bf = `Some PAssign` (the pool of
+   Model/Pool.v raised inside run_type_assignment_on_h5ad).  Definitions only.
+
+   WHAT `raises` MEANS (audit 4, A6): a step that fails raises an instance of a subclass of
+   `Exception`.  The clause is `except Exception`: a KeyboardInterrupt or SystemExit raised in the
+   body of `try` (BaseException, not Exception) skips the clause - no "an ERROR occurred" in the
+   log (no tag 13) - and goes through `finally` all the same.  That case is NOT modelled (the
+   harness raises RuntimeError in its faulted workers and drives OSError / RuntimeError at the
+   other points); likewise Pool.exit_code_of Raises = 1 is the exit code of a worker that raises
+   an Exception subclass (Model/ExitCode.v raise_exit_code: SystemExit(0) gives 0).
 
      tmp_dir = mkdtemp(dir=config['tmp_dir'], prefix='cell_type_mapper_..')   # if tmp_dir given
      probe output_path / log_path (write 'junk', unlink) when absent
@@ -20,17 +32,40 @@
          _clean_up_result_buffer(tmp_result_dir)    # on EVERY path (since the repair of F9: before
                                                     # it, the last step of the success path only)
          _clean_up(tmp_dir); log.info("CLEANING UP"); log.write_log(log_path)
-         output["config"], output["log"], output["metadata"] (, gene_identifier_mapping)
+         output["config"], output["log"], output["metadata"]
+         uns = read_uns_from_h5ad(config["query_path"])      # opens the QUERY file again
+         output["gene_identifier_mapping"] when uns has AIBS_CDM_gene_mapping
          write JSON; blob_to_hdf5 (metadata only unless results and taxonomy_tree present)
 
-   Fail points inside `finally` (audit 3, item 13): the three writes of the `finally` block -
-   log.write_log(log_path), the JSON dump to output_path, blob_to_hdf5(hdf5_output_path) - can
-   raise too (PLogFile, PJson, PHdf5).  output_path and log_path are probed before `try`,
-   hdf5_output_path is NOT, so an HDF5 path in a directory that does not exist is first noticed
-   in `finally`, AFTER the success message was logged, the CSV written and the query file's
-   obsm appended.  An exception raised in `finally` propagates from there: the remaining
-   steps of the block are skipped, nothing is added to the log (the `except` clause is
-   over), there is no re-raise of an earlier exception (FailFinally, tag 20, ends the trace). *)
+   EVERY statement of the `finally` block, in order, and whether it can raise
+   (from_specified_markers.py:196-228, read again for audit 4, A2):
+     196 _clean_up_result_buffer(tmp_result_dir)   ten attempts, OSError swallowed: does not raise
+                                                   (anything but OSError is not expected of
+                                                   unlink / rmdir / iterdir)
+     197 _clean_up(tmp_dir)                        unlink / rmdir of the run's own tmp directory: an
+                                                   OSError here propagates (a worker still writing into
+                                                   it; not driven: every worker has exited when the
+                                                   inspector raises, and the run's files are its own) -
+                                                   NOT a fail point of the model (assumption, harness)
+     198 log.info("CLEANING UP")                   list append + print: does not raise
+     200 log.write_log(log_path)                   open(log_path, 'a'): OSError    -> PLogFile
+     202-210 output["config"/"log"/"metadata"]     deepcopy, sanitize_paths, get_execution_metadata
+                                                   (time, path arithmetic, no file access): do not raise
+     213 read_uns_from_h5ad(config["query_path"])  h5py open of the QUERY file: OSError when it is
+                                                   absent / a directory / not HDF5 -> PReadUns
+                                                   (UNCONDITIONAL: not guarded by any option)
+     217 open(output_path, "w"); json.dumps(clean_for_json(output))            -> PJson
+     225 blob_to_hdf5(output, hdf5_output_path)                                -> PHdf5
+   Fail points inside `finally` (audit 3, item 13; PReadUns added by audit 4): PLogFile, PReadUns,
+   PJson, PHdf5.  output_path and log_path are probed before `try` - but only when they do NOT
+   exist: an existing DIRECTORY passes -, hdf5_output_path is not probed at all, the query file is
+   validated inside the body (PCopy).  An exception raised in `finally` propagates from there: the
+   remaining steps of the block are skipped, nothing more is added to the log, there is no re-raise
+   of an earlier exception (FailFinally, tag 20, ends the trace); if the body had raised, that
+   exception is replaced by the one of `finally` and survives only as its __context__
+   (`propagated` below: ExFin p (Some q)).
+   With a query file that is absent or a directory the copy step raises (bf = Some PCopy) AND
+   read_uns_from_h5ad raises (ff = Some PReadUns): the real run writes the log file only. *)
 From Coq Require Import ZArith List Bool.
 From CTM Require Import Base.Sx Model.Pool.
 Import ListNotations.
@@ -48,26 +83,30 @@ Definition key_eqb (a b : key) : bool :=
 Definition has_key (k : key) (l : list key) : bool := existsb (key_eqb k) l.
 
 (* points at which the run can fail, in program order *)
-Inductive point := PCopy | PMarkerCache | PAssign | PCsv | PObsm | PSummary
-                 | PLogFile | PJson | PHdf5.                      (* inside `finally` *)
+Inductive point := PCopy | PMarkerCache | PAssign | PCsv | PObsm | PSummary.    (* body of `try` *)
+Inductive fpoint := PLogFile | PReadUns | PJson | PHdf5.                        (* inside `finally` *)
 
 Definition point_eqb (a b : point) : bool :=
   match a, b with
   | PCopy, PCopy | PMarkerCache, PMarkerCache | PAssign, PAssign | PCsv, PCsv
-  | PObsm, PObsm | PSummary, PSummary | PLogFile, PLogFile | PJson, PJson | PHdf5, PHdf5 => true
+  | PObsm, PObsm | PSummary, PSummary => true
   | _, _ => false
   end.
-Definition in_finally (p : point) : bool :=
-  match p with PLogFile | PJson | PHdf5 => true | _ => false end.
+Definition fpoint_eqb (a b : fpoint) : bool :=
+  match a, b with
+  | PLogFile, PLogFile | PReadUns, PReadUns | PJson, PJson | PHdf5, PHdf5 => true
+  | _, _ => false
+  end.
 
 Inductive eff :=
 | MkTmp | ProbeOutputs | MkResultBuf
 | CopyInputs | MarkerCache | Assign | WriteCsv | AppendObsm       (* inside _run_mapping *)
 | WriteSummary | CleanResultBuf | LogSuccess
 | Fail (p : point)                                                 (* the step at p raised *)
-| FailFinally (p : point)                                          (* the step at p, inside `finally`, raised *)
+| FailFinally (p : fpoint)                                         (* the step at p, inside `finally`, raised *)
 | LogTraceback
 | CleanTmp | LogCleaning | WriteLogFile
+| ReadUns                                                          (* read_uns_from_h5ad(query_path) in `finally` *)
 | WriteJson (keys : list key)
 | WriteHdf5 (meta_keys : list key) (with_results : bool)
 | Reraise.
@@ -85,6 +124,8 @@ Record cfg := {
 
 Definition fails_at (fail : option point) (p : point) : bool :=
   match fail with Some q => point_eqb p q | None => false end.
+Definition ffails_at (fail : option fpoint) (p : fpoint) : bool :=
+  match fail with Some q => fpoint_eqb p q | None => false end.
 
 (* run the steps in order; a step that is enabled and is the failing point raises *)
 Fixpoint run_steps (fail : option point) (steps : list (point * bool * eff)) : list eff * bool :=
@@ -124,36 +165,40 @@ Definition opt (b : bool) (e : eff) : list eff := if b then [e] else [].
 
 (* the steps of `finally` that can raise, in order; a step that is enabled and is the failing
    point raises and the rest of the block is skipped *)
-Fixpoint run_fin_steps (fail : option point) (steps : list (point * bool * eff)) : list eff * bool :=
+Fixpoint run_fin_steps (fail : option fpoint) (steps : list (fpoint * bool * eff)) : list eff * bool :=
   match steps with
   | [] => ([], true)
   | (p, enabled, e) :: rest =>
       if enabled then
-        if fails_at fail p then ([FailFinally p], false)
+        if ffails_at fail p then ([FailFinally p], false)
         else let r := run_fin_steps fail rest in (e :: fst r, snd r)
       else run_fin_steps fail rest
   end.
 
 (* the `finally` block: effects, completed? *)
-Definition finally_part (c : cfg) (fail : option point) (output : list key) : list eff * bool :=
+Definition finally_part (c : cfg) (fail : option fpoint) (output : list key) : list eff * bool :=
   let keys := output ++ [KConfig; KLog; KMetadata] ++ (if has_gene_map c then [KGeneMapping] else []) in
   let r := run_fin_steps fail
              [ (PLogFile, has_log_path c, WriteLogFile);
+               (PReadUns, true, ReadUns);
                (PJson, has_json c, WriteJson keys);
                (PHdf5, has_hdf5 c, WriteHdf5 (remove_key KResults keys)
                                              (has_key KTaxonomyTree keys && has_key KResults keys)) ] in
   ([CleanResultBuf] ++ opt (has_tmp c) CleanTmp ++ [LogCleaning] ++ fst r, snd r).
 
 (* the step of `finally` at p is executed under configuration c *)
-Definition fin_enabled (c : cfg) (p : point) : bool :=
-  match p with PLogFile => has_log_path c | PJson => has_json c | PHdf5 => has_hdf5 c | _ => false end.
+Definition fin_enabled (c : cfg) (p : fpoint) : bool :=
+  match p with PLogFile => has_log_path c | PReadUns => true | PJson => has_json c | PHdf5 => has_hdf5 c end.
+(* no step of `finally` raises: ff is None or names a step that is not executed under c *)
+Definition fin_quiet (c : cfg) (ff : option fpoint) : bool :=
+  match ff with None => true | Some p => negb (fin_enabled c p) end.
 
 (* the body of `try` raised (the `except` clause ran) *)
 Definition body_raised (c : cfg) (fail : option point) : bool := snd (try_body c fail).
 
-Definition run_mapping (c : cfg) (fail : option point) : list eff * bool :=
+Definition run_mapping (c : cfg) (fail : option point) (ff : option fpoint) : list eff * bool :=
   let '(body, output, raised) := try_body c fail in
-  let f := finally_part c fail output in
+  let f := finally_part c ff output in
   (opt (has_tmp c) MkTmp ++ [ProbeOutputs] ++ body ++
    (if raised then [LogTraceback] else []) ++
    fst f ++
@@ -167,7 +212,7 @@ Definition eff_tag (e : eff) : Z :=
   | Assign => 6 | WriteCsv => 7 | AppendObsm => 8 | WriteSummary => 9 | CleanResultBuf => 10
   | LogSuccess => 11 | Fail _ => 12 | LogTraceback => 13 | CleanTmp => 14 | LogCleaning => 15
   | WriteLogFile => 16 | WriteJson _ => 17 | WriteHdf5 _ _ => 18 | Reraise => 19
-  | FailFinally _ => 20
+  | FailFinally _ => 20 | ReadUns => 21
   end%Z.
 Definition has_eff (t : Z) (tr : list eff) : bool := existsb (fun e => (eff_tag e =? t)%Z) tr.
 
@@ -181,6 +226,25 @@ Definition json_keys (tr : list eff) : option (list key) :=
   match find (fun e => (eff_tag e =? 17)%Z) tr with Some (WriteJson ks) => Some ks | _ => None end.
 Definition hdf5_obs (tr : list eff) : option (list key * bool) :=
   match find (fun e => (eff_tag e =? 18)%Z) tr with Some (WriteHdf5 ks b) => Some (ks, b) | _ => None end.
+
+(* the exception the caller of run_mapping sees.  ExBody p: the exception of the step p of the
+   body, logged by the `except` clause and re-raised AFTER `finally` completed.  ExFin p ctx: the
+   exception of the step p of `finally`; when the body had raised at q (ctx = Some q) that
+   exception is REPLACED: it is no longer what the caller sees and survives only as the
+   __context__ of the new one (Python sets __context__ when an exception is raised while another
+   is being handled / propagated) *)
+Inductive exc := ExNone | ExBody (p : point) | ExFin (p : fpoint) (ctx : option point).
+Definition failed_body (tr : list eff) : option point :=
+  match find (fun e => (eff_tag e =? 12)%Z) tr with Some (Fail p) => Some p | _ => None end.
+Definition failed_fin (tr : list eff) : option fpoint :=
+  match find (fun e => (eff_tag e =? 20)%Z) tr with Some (FailFinally p) => Some p | _ => None end.
+Definition propagated_trace (tr : list eff) : exc :=
+  match failed_fin tr with
+  | Some p => ExFin p (failed_body tr)
+  | None => match failed_body tr with Some q => ExBody q | None => ExNone end
+  end.
+Definition propagated (c : cfg) (bf : option point) (ff : option fpoint) : exc :=
+  propagated_trace (fst (run_mapping c bf ff)).
 
 (* position of the first effect with a given tag *)
 Fixpoint index_of (t : Z) (tr : list eff) : option nat :=
@@ -213,8 +277,8 @@ Definition buffer_cleaned_trace (c : cfg) (tr : list eff) : bool :=
   before 10 15 tr &&
   implb (has_eff 16 tr) (before 10 16 tr) && implb (has_eff 17 tr) (before 10 17 tr) &&
   implb (has_eff 18 tr) (before 10 18 tr) && implb (has_eff 19 tr) (before 10 19 tr).
-Definition buffer_cleaned (c : cfg) (fail : option point) : bool :=
-  buffer_cleaned_trace c (fst (run_mapping c fail)).
+Definition buffer_cleaned (c : cfg) (fail : option point) (ff : option fpoint) : bool :=
+  buffer_cleaned_trace c (fst (run_mapping c fail ff)).
 
 (* ---- executable statements of C14 on an effect trace (also evaluated by the harness on
    the effects OBSERVED on the real run_mapping) *)
@@ -249,12 +313,13 @@ Definition failed_trace_ok (c : cfg) (tr : list eff) (raised : bool) : bool :=
    | None => negb (has_hdf5 c) end) &&
   (implb (has_tmp c) (has_eff 14 tr)).                  (* tmp dir removed *)
 
-Definition failed_run_ok (c : cfg) (fail : option point) : bool :=
-  let r := run_mapping c fail in failed_trace_ok c (fst r) (snd r).
+Definition failed_run_ok (c : cfg) (fail : option point) (ff : option fpoint) : bool :=
+  let r := run_mapping c fail ff in failed_trace_ok c (fst r) (snd r).
 
 (* the CSV is not written when the run fails at or before the assignment *)
 Definition no_csv_trace (tr : list eff) : bool := negb (has_eff 7 tr).
-Definition no_csv (c : cfg) (fail : option point) : bool := no_csv_trace (fst (run_mapping c fail)).
+Definition no_csv (c : cfg) (fail : option point) (ff : option fpoint) : bool :=
+  no_csv_trace (fst (run_mapping c fail ff)).
 
 (* success path, for contrast (and so that the statement above is not vacuous) *)
 Definition clean_trace_ok (c : cfg) (tr : list eff) (raised : bool) : bool :=
@@ -264,7 +329,7 @@ Definition clean_trace_ok (c : cfg) (tr : list eff) (raised : bool) : bool :=
   (match json_keys tr with Some ks => has_key KResults ks | None => negb (has_json c) end) &&
   (match hdf5_obs tr with Some (_, b) => b | None => negb (has_hdf5 c) end).
 Definition clean_run_ok (c : cfg) : bool :=
-  let r := run_mapping c None in clean_trace_ok c (fst r) (snd r).
+  let r := run_mapping c None None in clean_trace_ok c (fst r) (snd r).
 
 (* a failure inside `finally` after the body of `try` succeeded: the call raises although the
    success message is in the log; no traceback is added to the log, nothing is re-raised; the
@@ -277,28 +342,60 @@ Definition finally_failed_trace (c : cfg) (tr : list eff) (raised : bool) : bool
   implb (has_csv c) (has_eff 7 tr) && implb (has_obsm c) (has_eff 8 tr) &&
   implb (has_summary c) (has_eff 9 tr).
 
+(* a failure of the body AND a failure inside `finally` (audit 4, A2b): the call raises; the
+   `except` clause ran (traceback added to the in-memory log, tag 13) but nothing is re-raised (no
+   19): the trace ends at the failing step of `finally` (20); no success message; buffer and tmp
+   directory removed before.  What reaches the disk depends on WHICH step of `finally` failed:
+   the log file is written iff a log path was given and the failing step comes after it
+   (ff <> PLogFile); the JSON iff requested and the failing step is the HDF5 write; never an HDF5.
+   (The JSON holds no `results` when _run_mapping raised; after a failure of the summary step,
+   bf = PSummary, `output` had been assigned and the JSON does hold them - as without ff.) *)
+Definition double_failed_trace (c : cfg) (ff : fpoint) (tr : list eff) (raised : bool) : bool :=
+  raised && has_eff 12 tr && has_eff 13 tr && has_eff 20 tr && negb (has_eff 19 tr) && negb (has_eff 11 tr) &&
+  before 12 13 tr && before 13 10 tr && before 10 20 tr && implb (has_tmp c) (before 14 20 tr) &&
+  Bool.eqb (has_eff 16 tr) (has_log_path c && negb (fpoint_eqb ff PLogFile)) &&
+  Bool.eqb (has_eff 17 tr) (has_json c && fpoint_eqb ff PHdf5) &&
+  negb (has_eff 18 tr).
+
 (* ------------------------------------------------------------------ wire *)
 Definition point_of (z : Z) : option point :=
   match z with
   | 1 => Some PCopy | 2 => Some PMarkerCache | 3 => Some PAssign | 4 => Some PCsv
-  | 5 => Some PObsm | 6 => Some PSummary
-  | 7 => Some PLogFile | 8 => Some PJson | 9 => Some PHdf5 | _ => None
+  | 5 => Some PObsm | 6 => Some PSummary | _ => None
+  end%Z.
+Definition fpoint_of (z : Z) : option fpoint :=
+  match z with
+  | 7 => Some PLogFile | 8 => Some PJson | 9 => Some PHdf5 | 10 => Some PReadUns | _ => None
+  end%Z.
+Definition point_tag (p : point) : Z :=
+  match p with PCopy => 1 | PMarkerCache => 2 | PAssign => 3 | PCsv => 4 | PObsm => 5 | PSummary => 6 end%Z.
+Definition fpoint_tag (p : fpoint) : Z :=
+  match p with PLogFile => 7 | PJson => 8 | PHdf5 => 9 | PReadUns => 10 end%Z.
+(* (kind, point, context): kind 0 none / 1 body re-raised / 2 raised in `finally`; 0 = no point *)
+Definition exc_sx (e : exc) : sx :=
+  match e with
+  | ExNone => of_LZ [0; 0; 0]
+  | ExBody p => of_LZ [1; point_tag p; 0]
+  | ExFin p ctx => of_LZ [2; fpoint_tag p; match ctx with Some q => point_tag q | None => 0 end]
   end%Z.
 
-(* input: ((tmp csv obsm summary log json hdf5 genemap) fail) with fail = 0 for none.
-   output: (raised, effect tags, json keys | (), hdf5 (meta keys, with_results) | ()) *)
+(* input: ((tmp csv obsm summary log json hdf5 genemap) bf ff) with bf = 0 / ff = 0 for none
+   (bf in 1..6, ff in 7..10).
+   output: (raised, effect tags, json keys | (), hdf5 (meta keys, with_results) | (),
+            (kind point context) of the propagated exception) *)
 Definition run_mapping_sx (x : sx) : sx :=
   match x with
-  | L [L [a; b; c; d; e; f; g; h]; fl] =>
-      match sx_bool a, sx_bool b, sx_bool c, sx_bool d, sx_bool e, sx_bool f, sx_bool g, sx_bool h, sx_Z fl with
-      | Some a, Some b, Some c, Some d, Some e, Some f, Some g, Some h, Some fl =>
+  | L [L [a; b; c; d; e; f; g; h]; fl; ffl] =>
+      match sx_bool a, sx_bool b, sx_bool c, sx_bool d, sx_bool e, sx_bool f, sx_bool g, sx_bool h, sx_Z fl, sx_Z ffl with
+      | Some a, Some b, Some c, Some d, Some e, Some f, Some g, Some h, Some fl, Some ffl =>
           let cf := {| has_tmp := a; has_csv := b; has_obsm := c; has_summary := d; has_log_path := e;
                        has_json := f; has_hdf5 := g; has_gene_map := h |} in
-          let r := run_mapping cf (point_of fl) in
+          let r := run_mapping cf (point_of fl) (fpoint_of ffl) in
           sx_ok (L [of_bool (snd r); of_LZ (map eff_tag (fst r));
                     of_option (fun ks => of_LZ (map key_tag ks)) (json_keys (fst r));
-                    of_option (fun p => L [of_LZ (map key_tag (fst p)); of_bool (snd p)]) (hdf5_obs (fst r))])
-      | _, _, _, _, _, _, _, _, _ => sx_bad
+                    of_option (fun p => L [of_LZ (map key_tag (fst p)); of_bool (snd p)]) (hdf5_obs (fst r));
+                    exc_sx (propagated_trace (fst r))])
+      | _, _, _, _, _, _, _, _, _, _ => sx_bad
       end
   | _ => sx_bad
   end.
@@ -306,7 +403,8 @@ Definition run_mapping_sx (x : sx) : sx :=
 (* the property's own statement evaluated on an OBSERVED trace.
    input: ((tmp csv obsm summary log json hdf5 genemap) raised (effect tags)
            (json key tags) | ()  ((hdf5 key tags) with_results) | ())
-   output: (prop_trace_ok, failed_trace_ok, no_csv_trace, clean_trace_ok) *)
+   output: (prop_trace_ok, failed_trace_ok, no_csv_trace, clean_trace_ok,
+            finally_failed_trace, (double_failed_trace for ff = PLogFile, PJson, PHdf5, PReadUns)) *)
 Definition key_of (z : Z) : option key :=
   match z with
   | 0 => Some KResults | 1 => Some KMarkerGenes | 2 => Some KTaxonomyTree | 3 => Some KNUnmapped
@@ -321,7 +419,7 @@ Definition eff_of (jk : list key) (hk : list key * bool) (t : Z) : option eff :=
   | 9 => Some WriteSummary | 10 => Some CleanResultBuf | 11 => Some LogSuccess
   | 12 => Some (Fail PAssign) | 13 => Some LogTraceback | 14 => Some CleanTmp | 15 => Some LogCleaning
   | 16 => Some WriteLogFile | 17 => Some (WriteJson jk) | 18 => Some (WriteHdf5 (fst hk) (snd hk))
-  | 19 => Some Reraise | 20 => Some (FailFinally PHdf5) | _ => None
+  | 19 => Some Reraise | 20 => Some (FailFinally PHdf5) | 21 => Some ReadUns | _ => None
   end%Z.
 
 Definition check_trace_sx (x : sx) : sx :=
@@ -341,7 +439,8 @@ Definition check_trace_sx (x : sx) : sx :=
           | Some rs, Some tags, Some jk', Some hk' =>
               match opt_all (map (eff_of jk' hk') tags) with
               | Some tr => sx_ok (L [of_bool (prop_trace_ok cf tr rs); of_bool (failed_trace_ok cf tr rs); of_bool (no_csv_trace tr);
-                                     of_bool (clean_trace_ok cf tr rs)])
+                                     of_bool (clean_trace_ok cf tr rs); of_bool (finally_failed_trace cf tr rs);
+                                     L (map (fun p => of_bool (double_failed_trace cf p tr rs)) [PLogFile; PJson; PHdf5; PReadUns])])
               | None => sx_bad
               end
           | _, _, _, _ => sx_bad
